@@ -43,7 +43,7 @@ STRENGTHENING = {
     'C18_b_m2': 'same (batches mixing a nested path with a top-level argument)',
     'C19_b_m2': 'explicit argument intersected with an enclosing scope, both directions',
     'C06_c_m1': 'quick universe: dicts with one key set in different insertion orders and crossed values (plain, pg.Dict, nested, int / mixed keys, three keys); the thorough universe already had them',
-    'C05_c_m1': 'none: needs an unclosed raw pg.io.open handle, outside the save/overwrite/append/load alphabet of the property (documented miss, see text above)',
+    'C05_c_m1': 'file histories: overwrite while a reader that read to the end is still open (peeksave step)',
     'C20_b_m1': 'callable include_keys / exclude_keys (keep-all differential, filter by last key)',
 }
 
